@@ -3,7 +3,8 @@ Requests (same as harness/src/streams/c03.rs):
   `pre <chain> <kind> <value>`                → hex of the bytes hashed
   `id <chain> <kind> <value>`                 → hex of the id
   `cid <chain> <kind> <value>`                → hex of the id cached by the model of `precompute`
-  `same <c1> <c2> <kind> <value> | <value'>`  → `1` iff the two ids are equal -/
+  `same <c1> <c2> <kind> <value> | <value'>`  → `1` iff the two ids are equal
+  `reid <c1> <c2> <kind> <value> | <value'>`  → hex of the id cached after precompute(c1), edit to value', precompute(c2) on ONE object -/
 import FuelVerif.Basic.Loop
 import FuelVerif.Basic.Sha256
 import FuelVerif.Model.CodecText
@@ -18,7 +19,27 @@ def splitBar : List String → List String × List String
   | [] => ([], [])
   | t :: ts => if t == "|" then ([], ts) else let p := splitBar ts; (t :: p.1, p.2)
 
+/-- `reid c1 c2 kind v1 | v2`: precompute(c1) on v1, edit the object to v2 (the cache stays), precompute(c2): the cached id -/
+def reid (c1 c2 : Nat) (k : Kind) (v w : Val) : String :=
+  if k = .mint then
+    let t1 := MintTx.precompute H c1 { val := v, metadata := none }
+    match (MintTx.precompute H c2 { t1 with val := w }).cachedId with
+    | some id => toHex id
+    | none => "none"
+  else
+    match TxId.precompute H c1 { kind := k, val := v, metadata := none } with
+    | .error _ => "err"
+    | .ok t1 =>
+      match TxId.precompute H c2 { t1 with val := w } with
+      | .error _ => "err"
+      | .ok t2 => (match cachedId t2 with | some id => toHex id | none => "none")
+
 def handle : List String → String
+  | "reid" :: c1 :: c2 :: kind :: ts =>
+    let p := splitBar ts
+    match kindOf kind, Text.parseAll p.1, Text.parseAll p.2 with
+    | some k, some v, some w => reid (natOr c1 0) (natOr c2 0) k v w
+    | _, _, _ => "bad-request"
   | "same" :: c1 :: c2 :: kind :: ts =>
     let p := splitBar ts
     match kindOf kind, Text.parseAll p.1, Text.parseAll p.2 with
